@@ -15,7 +15,7 @@ import (
 )
 
 func init() {
-	register("C15", c15Order, c15Getters, c15Bits, c15Cache, c15ErrFlow, c15Default, c15Config)
+	register("C15", c15Order, c15Getters, c15Bits, c15Cache, c15ErrFlow, c15Default, c15Config, c15LoopErr, c15CacheInfo, c17Slot, c17Fill)
 }
 
 const (
